@@ -457,6 +457,8 @@ def role_payload_stats(model: ir.Model) -> dict:
             stats["hinted_node_output"] += sum(1 for o in node.outputs if o.const_value is not None)
     for function in model.functions.values():
         stats["hinted_function_input"] += sum(1 for v in function.inputs if v.const_value is not None)
+        for graph in function.subgraphs():
+            stats["hinted_subgraph_input"] += sum(1 for v in graph.inputs if v.const_value is not None)
         for node in function.all_nodes():
             stats["hinted_node_output"] += sum(1 for o in node.outputs if o.const_value is not None)
     return stats
